@@ -115,17 +115,20 @@ def TokCfg.fixed : TokCfg := ⟨true⟩
 
 def isDeclName (n : RName) : Bool := n.loc == sXmlns || n.pfx == some sXmlns
 
+/-- the duplicate test of `finish_attribute` (tokenizer/mod.rs:1279-1286) -/
+def isDup (cfg : TokCfg) (attrs : List RAttr) (raw : Str) : Bool :=
+  if cfg.dupCompareQName then attrs.any (fun b => b.name == splitQName raw)
+  else attrs.any (fun b => b.name.loc == raw)
+
+/-- declarations go to the front, everything else to the back (tokenizer/mod.rs:1302-1308) -/
+def pushAttr (attrs : List RAttr) (t : RAttr) : List RAttr :=
+  if isDeclName t.name then t :: attrs else attrs ++ [t]
+
 /-- `finish_attribute` (tokenizer/mod.rs:1271-1310) -/
 def finishAttribute (cfg : TokCfg) (attrs : List RAttr) (a : RawAttr) : List RAttr :=
   if a.name = [] then attrs
-  else
-    let dup := if cfg.dupCompareQName
-      then attrs.any (fun b => b.name == splitQName a.name)
-      else attrs.any (fun b => b.name.loc == a.name)
-    if dup then attrs
-    else
-      let q := splitQName a.name
-      if isDeclName q then ⟨q, a.value⟩ :: attrs else attrs ++ [⟨q, a.value⟩]
+  else if isDup cfg attrs a.name then attrs
+  else pushAttr attrs ⟨splitQName a.name, a.value⟩
 
 /-- the attribute list of the emitted tag, from the attributes in source order -/
 def tagAttrs (cfg : TokCfg) (raw : List RawAttr) : List RAttr :=
